@@ -67,6 +67,7 @@ type scenario struct {
 	bs       []beSpec
 	req      reqSpec
 	seq      []reqSpec // instance reuse streams: the requests one instance serves
+	shadowFrom int     // > 0: backends bs[shadowFrom:] are shadow backends and the endpoint is built by proxy.NewShadowFactory
 }
 
 type sent struct {
@@ -165,6 +166,12 @@ func buildEndpoint(sc scenario, only int) (*config.EndpointConfig, error) {
 		if b.gql != nil {
 			be.ExtraConfig = config.ExtraConfig{graphql.Namespace: gqlExtra(b.gql)}
 		}
+		if sc.shadowFrom > 0 && i >= sc.shadowFrom {
+			if be.ExtraConfig == nil {
+				be.ExtraConfig = config.ExtraConfig{}
+			}
+			be.ExtraConfig[proxy.Namespace] = map[string]interface{}{"shadow": true}
+		}
 		ep.Backend = append(ep.Backend, be)
 	}
 	svc := config.ServiceConfig{Version: config.ConfigVersion, Timeout: 60 * time.Second, Endpoints: []*config.EndpointConfig{ep}}
@@ -182,6 +189,28 @@ func buildEndpoint(sc scenario, only int) (*config.EndpointConfig, error) {
 		}
 	}
 	return ep, nil
+}
+
+func isShadowBE(be *config.Backend) bool {
+	e, ok := be.ExtraConfig[proxy.Namespace].(map[string]interface{})
+	if !ok {
+		return false
+	}
+	v, _ := e["shadow"].(bool)
+	return v
+}
+
+// the endpoint the model speaks of: the regular backends (the shadow pipeline is C16's
+// subject; here the shadow backends are only siblings that must not matter)
+func modelEP(ep *config.EndpointConfig) *config.EndpointConfig {
+	c := *ep
+	c.Backend = nil
+	for _, be := range ep.Backend {
+		if !isShadowBE(be) {
+			c.Backend = append(c.Backend, be)
+		}
+	}
+	return &c
 }
 
 func cloneMM(m map[string][]string) map[string][]string {
@@ -212,7 +241,7 @@ type runResult struct {
 func expectedCalls(ep *config.EndpointConfig, rq reqSpec) int {
 	total := 0
 	for _, be := range ep.Backend {
-		if _, ok := gqlOut(be, rq); !ok {
+		if _, ok := gqlOut(be, rq); !ok || isShadowBE(be) {
 			continue
 		}
 		cc := be.ConcurrentCalls
@@ -322,6 +351,16 @@ func newInstance(ep *config.EndpointConfig) *instance {
 	}
 	bf := func(be *config.Backend) proxy.Proxy {
 		k := idx[be]
+		if isShadowBE(be) { // answers at once, records nothing, does not take part in the barrier
+			return proxy.NewHTTPProxyWithHTTPExecutor(be, func(_ context.Context, r *http.Request) (*http.Response, error) {
+				if r.Body != nil {
+					io.Copy(io.Discard, r.Body)
+				}
+				return &http.Response{StatusCode: 200, Header: http.Header{"Content-Type": {"application/json"}},
+					Body: io.NopCloser(strings.NewReader(`{"shadow":1}`))}, nil
+			}, be.Decoder)
+		}
+		injected := fmt.Sprintf("X-Injected-By-%d", k)
 		ex := func(ctx context.Context, r *http.Request) (*http.Response, error) {
 			run, _ := ctx.Value(runKey{}).(*runState)
 			if run == nil {
@@ -329,7 +368,10 @@ func newInstance(ep *config.EndpointConfig) *instance {
 			}
 			run.wg.Add(1)
 			defer run.wg.Done()
-			s := sent{Method: r.Method, URL: r.URL.Scheme + "://" + r.URL.Host + r.URL.Path, Hdr: cloneMM(r.Header)}
+			// what a cookie jar or a decorating round tripper does: write to the headers of the
+			// outgoing request it was handed (its own, as far as it can know)
+			r.Header.Set(injected, "1")
+			s := sent{Method: r.Method, URL: r.URL.Scheme + "://" + r.URL.Host + r.URL.Path}
 			q, err := url.ParseQuery(r.URL.RawQuery)
 			if err != nil {
 				q = url.Values{"<unparsable>": {r.URL.RawQuery}}
@@ -339,6 +381,10 @@ func newInstance(ep *config.EndpointConfig) *instance {
 			// after every pipeline of this client request has reached its executor, so that
 			// whatever a sibling's stages did to a shared body (read, Close) has happened
 			run.bar.wait()
+			// the headers as they are when the transport writes the request, minus what this
+			// executor added itself: a sibling's addition must not show up here
+			s.Hdr = cloneMM(r.Header)
+			delete(s.Hdr, injected)
 			if r.Body != nil {
 				b, err := io.ReadAll(r.Body)
 				s.Body = string(b)
@@ -354,7 +400,14 @@ func newInstance(ep *config.EndpointConfig) *instance {
 		}
 		return proxy.NewHTTPProxyWithHTTPExecutor(be, ex, be.Decoder)
 	}
-	p, err := proxy.NewDefaultFactory(bf, logging.NoOp).New(ep)
+	var f proxy.Factory = proxy.NewDefaultFactory(bf, logging.NoOp)
+	for _, be := range ep.Backend {
+		if isShadowBE(be) {
+			f = proxy.NewShadowFactory(f)
+			break
+		}
+	}
+	p, err := f.New(ep)
 	if err != nil {
 		in.err = "factory: " + err.Error()
 	}
@@ -368,7 +421,7 @@ func (in *instance) call(rq reqSpec, quiesce bool) runResult {
 	ep := in.ep
 	res := runResult{}
 	if in.err != "" {
-		res.sent = make([][]sent, len(ep.Backend))
+		res.sent = make([][]sent, len(modelEP(ep).Backend))
 		res.panicked = in.err
 		return res
 	}
@@ -403,9 +456,11 @@ func (in *instance) call(rq reqSpec, quiesce bool) runResult {
 	run.bar.mu.Unlock()
 	run.mu.Lock()
 	defer run.mu.Unlock()
-	res.sent = make([][]sent, len(run.sent))
+	res.sent = nil
 	for k := range run.sent {
-		res.sent[k] = append([]sent(nil), run.sent[k]...)
+		if !isShadowBE(ep.Backend[k]) {
+			res.sent = append(res.sent, append([]sent(nil), run.sent[k]...))
+		}
 	}
 	res.afterHdr, res.afterQry, res.afterPar = cloneMM(h0), cloneMM(q0), cloneSM(p0)
 	return res
@@ -597,7 +652,7 @@ func allJobs(cfg out.Config, raceMode bool) []job {
 }
 
 func canonOf(sc scenario, stream string, step int, rq reqSpec) string {
-	return fmt.Sprintf("%s|%s|%d|%s|%d|%v|%+v|%v|%v|%v|%v", sc.name, stream, step, sc.epMethod, sc.cc, sc.ccEach, describe(sc.bs), rq.hdr, rq.qry, rq.par, rq.body != nil)
+	return fmt.Sprintf("%s|%s|%d|%s|%d|%v|%d|%+v|%v|%v|%v|%v", sc.name, stream, step, sc.epMethod, sc.cc, sc.ccEach, sc.shadowFrom, describe(sc.bs), rq.hdr, rq.qry, rq.par, rq.body != nil)
 }
 
 // the statement excludes a body shared by shallow clones: never generate it
@@ -792,8 +847,9 @@ func worker(cfg out.Config, raceMode bool, from, to, upto int, outPath string) {
 		emitRec := func(r record) { r.Job = ji; put(r) }
 		switch j.kind {
 		case "fresh": // one fresh instance per request
-			rq := inScope(ep, sc.req)
-			alone, writers, problems := observeAlone(sc, len(ep.Backend), rq)
+			epm := modelEP(ep)
+			rq := inScope(epm, sc.req)
+			alone, writers, problems := observeAlone(sc, len(epm.Backend), rq)
 			// fan-out, repeated; keep the first run in which some backend was sent something
 			// else than alone (else the first)
 			var keep *runResult
@@ -808,7 +864,7 @@ func worker(cfg out.Config, raceMode bool, from, to, upto int, outPath string) {
 					break
 				}
 			}
-			emitRec(caseRecord(sc, "fresh", 0, ep, rq, *keep, alone, writers, problems, freshReports(), ""))
+			emitRec(caseRecord(sc, "fresh", 0, epm, rq, *keep, alone, writers, problems, freshReports(), ""))
 		case "alias":
 			for _, rec := range aliasRecords(sc, ep, 0, sc.req) {
 				emitRec(rec)
@@ -984,6 +1040,7 @@ func main() {
 		if err != nil {
 			return
 		}
+		ep = modelEP(ep)
 		stream := map[string]string{"fresh": "fresh", "seq": "reuse-seq", "conc": "reuse-conc", "alias": "alias"}[j.kind]
 		n := j.nominal - emitted
 		if n < 1 {
@@ -1073,7 +1130,7 @@ func main() {
 	w.Meta["race_reports_with_lura_frames"] = raceReports
 	w.Meta["worker_processes"] = workers
 	w.Meta["worker_crashes"] = crashes
-	w.Close("regression corpus (GraphQL next to plain/filtered siblings, GET and POST endpoints, concurrent calls 2..3, mutation with invalid body) -> all ordered pairs of 20 backend shapes (methods GET/HEAD/POST/PUT/OPTIONS/TRACE/PATCH/PURGE, lower and mixed case spellings) x concurrent_calls 1..2 x 2 client requests, all singles x cc 1..3 -> random endpoints of 1..4 backends with random filter lists (0..3 names), GraphQL options, methods, per-backend concurrent_calls 1..3, random client headers/query/params/body -> unit level ownership effects (alias stream): Clone, CloneRequest, header filter, query filter, request builder, GraphQL middleware and load balancer applied alone to 3 requests x 22 backend shapes, which fields of the request handed on are the received objects (pointer identity of maps, value-slice backing arrays, body reader) -> instance reuse: one factory-built endpoint proxy serving a sequence of 4..5 different requests (each step a case; corpus orders + random endpoints) and the same instance hit by 12 goroutines x 6 iterations over 4 distinct requests (one case per distinct request/observation); every scenario is run as fan-out (stub executors meet at a barrier) and per backend alone; nontrivial = more than one backend or concurrent_calls > 1", false)
+	w.Close("regression corpus (GraphQL next to plain/filtered siblings, GET and POST endpoints, concurrent calls 2..3, mutation with invalid body) -> all ordered pairs of 20 backend shapes (methods GET/HEAD/POST/PUT/OPTIONS/TRACE/PATCH/PURGE, lower and mixed case spellings) x concurrent_calls 1..2 x 2 client requests, all singles x cc 1..3 -> random endpoints of 1..4 backends with random filter lists (0..3 names), GraphQL options, methods, per-backend concurrent_calls 1..3, random client headers/query/params/body -> endpoints built by proxy.NewShadowFactory (2..3 regular backends next to GET / HEAD / GraphQL shadow backends, client bodies): what the REGULAR backends are sent; every stub executor adds a header of its own to the outgoing request it is handed (as a cookie jar or a decorating round tripper does) and records the headers after all siblings did so -> unit level ownership effects (alias stream): Clone, CloneRequest, header filter, query filter, request builder, GraphQL middleware and load balancer applied alone to 3 requests x 22 backend shapes, which fields of the request handed on are the received objects (pointer identity of maps, value-slice backing arrays, body reader) -> instance reuse: one factory-built endpoint proxy serving a sequence of 4..5 different requests (each step a case; corpus orders + random endpoints) and the same instance hit by 12 goroutines x 6 iterations over 4 distinct requests (one case per distinct request/observation); every scenario is run as fan-out (stub executors meet at a barrier) and per backend alone; nontrivial = more than one backend or concurrent_calls > 1", false)
 }
 
 func describe(bs []beSpec) string {
